@@ -14,8 +14,8 @@ impl Property for C03 {
     }
     fn runs(&self, tier: Tier) -> u64 {
         match tier {
-            Tier::Quick => 500,
-            Tier::Thorough => 10000,
+            Tier::Quick => 800,
+            Tier::Thorough => 16000,
         }
     }
     fn rule(&self) -> &'static str {
